@@ -166,6 +166,23 @@ theorem received_iff {tr : Trace} {h : Nat} {s : Svc} {t : Int} :
     received tr h s t = true ↔ ∃ e ∈ dlvs tr, e.h = h ∧ e.t ≤ t ∧ pos s e.items = true := by
   simp [received, and_assoc]
 
+theorem received_mono {tr : Trace} {h : Nat} {s : Svc} {t t' : Int} (ht : t ≤ t') (hr : received tr h s t = true) :
+    received tr h s t' = true := by
+  obtain ⟨e, he, h1, h2, h3⟩ := received_iff.mp hr
+  exact received_iff.mpr ⟨e, he, h1, by omega, h3⟩
+
+/-- what a host has received only grows: a question whose known answers are among them stays one -/
+theorem asks_mono {tr : Trace} {h : Nat} {t t' : Int} {ty : Nat} {qu : Bool} {items : List Item} (ht : t ≤ t')
+    (ha : asks tr h t ty qu items = true) : asks tr h t' ty qu items = true := by
+  simp only [asks, List.any_eq_true] at ha ⊢
+  obtain ⟨it, hit, hq⟩ := ha
+  refine ⟨it, hit, ?_⟩
+  cases it with
+  | ptr s ttl full => simp at hq
+  | query ty' known qu' =>
+    simp only [Bool.and_eq_true, List.all_eq_true] at hq ⊢
+    exact ⟨hq.1, fun k hk => received_mono ht (hq.2 k hk)⟩
+
 /-- if `h` never processed a PTR(`s`) with TTL > 0, a question it asks or is suppressed by does not list `s` -/
 theorem asks_of {tr : Trace} {h : Nat} {t : Int} {ty : Nat} {qu : Bool} {items : List Item} {s : Svc}
     (hno : ∀ e ∈ dlvs tr, e.h = h → pos s e.items = false) (ha : asks tr h t ty qu items = true) :
